@@ -7,6 +7,15 @@ Contracts
   sum_of_abs_residuals / sum_of_squared_residuals / reduced_chi_squared (numba bodies, pointwise)
       result == nansum over the frame of  |w (t - s)|  /  w (t - s)^2  /  ((t - s)/w)^2 , the last divided by
       (number of finite residuals - free parameters)
+  targets.*            create_processor_data_array: one frame per declared file, in order (1..3 files, possibly repeated)
+  init.*               ModelFittingDataTree.__init__: targets from the declared files, cut by the declared target range; the
+                       declared result range, weights and input arguments are the ones kept; ranges checked at construction
+  build_processors.*   processor i = deep copy with every input argument set to ITS i-th value
+  fitness.loop.* / fitness.sum_over_pairs   ModelFittingDataTree.fitness under a loop contract (unbounded number of pairs):
+                       result = SUM_k fitness_func-term(processor k updated with the candidate, its own simulated data,
+                       target k, weight k)
+  sim_data.* / calc.*  the declared output container of the run's tree cut by the declared result range; the configured
+                       fitness function receives exactly those values, the target's and the weighting (ones if none)
 """
 from __future__ import annotations
 
@@ -16,7 +25,11 @@ UTIL = "pyxel/calibration/util.py"
 FIT = "pyxel/calibration/fitness.py"
 TRUSTED = ["np.nansum / ndarray.sum are abstract reductions: the contract pins the summand at an arbitrary index and the shape",
            "machine arithmetic treated as mathematical (real mode) in the fitness formulas",
-           "pygmo's champion bookkeeping (champion fitness never gets worse) is outside: external C++ library"]
+           "pygmo's champion bookkeeping (champion fitness never gets worse) is outside: external C++ library",
+           "iterating all_target_data yields its slices along 'processor' in order; xarray isel / getitem select what their arguments say (boundary)",
+           "single-readout targets only: for multi-readout targets the constructor raises ValueError at this snapshot (dimension 'readout_time' vs range key 'time')",
+           "equal numbers of processors (input-argument values) and target files: zip(strict=False) would silently drop the surplus; proved: sum over min(#processors, #targets) pairs",
+           "target lists of 1..3 files in targets.* and 1..3 values x 1..2 arguments in build_processors.* (bounded in length; contents symbolic)"]
 ASSUMPTIONS = ["fit ranges fully specified with 0 <= start <= stop (None entries are outside this contract)"]
 
 
@@ -154,3 +167,391 @@ absr = lambda x: z3.If(x >= 0, x, -x)
 unit("C11", "formula.abs")(formula_unit("sum_of_abs_residuals", lambda s, t, w: absr(w * (t - s))))
 unit("C11", "formula.squared")(formula_unit("sum_of_squared_residuals", lambda s, t, w: w * (t - s) * (t - s)))
 unit("C11", "formula.chi2")(formula_unit("reduced_chi_squared", lambda s, t, w: ((t - s) / w) * ((t - s) / w), chi2=True))
+
+
+# ---- target files -> per-processor target frames ------------------------------------------------------------------
+from . import boundary  # noqa: E402
+
+NY, NX = z3.Int("target_ny"), z3.Int("target_nx")
+TARGET_FRAME = z3.Function("target_frame", z3.StringSort(), z3.IntSort(), z3.IntSort(), z3.RealSort())
+
+TARGETS_REPLAY = lambda w: {"code": """
+import numpy as np, tempfile, pathlib
+from pyxel.calibration.util import create_processor_data_array
+d = pathlib.Path(tempfile.mkdtemp())
+frames = {n: np.full((2, 3), float(i + 1)) for i, n in enumerate('abc')}
+for n, f in frames.items(): np.save(d / f'{n}.npy', f)
+VIOLATED, DETAIL = False, 'every declared file gave its own frame, in order'
+for names in (['a'], ['a', 'b'], ['a', 'b', 'a'], ['b', 'b'], ['c', 'a', 'b']):
+    da = create_processor_data_array([d / f'{n}.npy' for n in names])
+    got = [float(np.asarray(da.isel(processor=i)).ravel()[0]) for i in range(da.sizes['processor'])] if 'processor' in da.dims else None
+    want = [float(frames[n].ravel()[0]) for n in names]
+    if got != want:
+        VIOLATED, DETAIL = True, f'target files {names}: frames along processor = {got}, declared files hold {want}'; break
+""", "expect": "one target frame per declared file, in declaration order (a file may be listed more than once)"}
+
+
+@unit("C11", "targets")
+def targets(u: Unit):
+    """create_processor_data_array(filenames): the `processor` axis has ONE frame per declared file, in declaration order,
+    frame i being the content of file i (files may repeat). Declared lists of 1..3 files (bounded in length, symbolic and
+    possibly equal paths, symbolic frame contents and shape)."""
+    fi = u.fn(f"{UTIL}::create_processor_data_array")
+    for n in (1, 2, 3):
+        cfg = Cfg("real")
+        boundary.install(cfg)
+        names = [VStr(z3.String(f"target_file{i}")) for i in range(n)]
+
+        def read_single(ex, args, kwargs, fr):
+            pth = args[0] if args else kwargs["filename"]
+            t = z_str(pth.v) if isinstance(pth, VStr) else z_str(pth.info["text"])
+            from pyvc import arrays as A
+            return A.new_array(ex, (NY, NX), VDtype("float64"), lambda ix, t=t: VFloat(TARGET_FRAME(t, z_int(ix[0]), z_int(ix[1]))))
+        cfg.contracts[f"{UTIL}::read_single_data"] = Contract(f"{UTIL}::read_single_data", read_single, "file content: a 2-D frame determined by the path")
+        cfg.contracts[f"{UTIL}::sanitize"] = Contract(f"{UTIL}::sanitize", lambda ex, args, kwargs, fr: VOpaque("xr", ex.st.fresh_int("attrs"), {"label": "sanitized"}), "attribute text")
+        cfg.lib_overrides["pathlib.Path"] = lambda ex, f, args, kwargs, fr: args[0]
+
+        def setup(ex, names=names):
+            ex.st.assume(z3.And(NY > 0, NX > 0))
+            return [], {"filenames": ex.st.alloc(HList(list(names)))}
+        ps = u.paths(fi, setup, cfg, label=f"create_processor_data_array[{n} files]")
+        gy, gx = z3.Int("gy"), z3.Int("gx")
+        w = {f"file{i}": names[i].v for i in range(n)}
+        for p in ps:
+            if p.kind != "return":
+                u.oblige(p, f"targets.no_raise[{n}]", False, dict(w, exc=p.exc_name()), TARGETS_REPLAY)
+                continue
+            evs = [e for e in p.st.events if e[0] == "lib_call" and e[1] == "xarray.DataArray"]
+            ok = len(evs) == 1 and evs[0][2] and p.ex.is_arr(evs[0][2][0]) and len(p.st.cell(evs[0][2][0]).shape) == 3
+            if not ok:
+                u.oblige(p, f"targets.one_frame_per_file[{n}]", False, w, TARGETS_REPLAY)
+                continue
+            c = p.st.cell(evs[0][2][0])
+            goal = [z_int(c.shape[0]) == n]
+            for i in range(n):
+                goal.append(z3.Implies(z3.And(gy >= 0, gy < NY, gx >= 0, gx < NX), to_real(c.elem((z3.IntVal(i), gy, gx))) == TARGET_FRAME(names[i].v, gy, gx)))
+            u.oblige(p, f"targets.one_frame_per_file[{n}]", z3.And(*goal), w, TARGETS_REPLAY)
+            kw = evs[0][3]
+            dims = [x.v for x in (p.ex.try_list(kw.get("dims")) or []) if isinstance(x, VStr)]
+            u.oblige(p, f"targets.dims[{n}]", bool(dims == ["processor", "y", "x"]), {"dims": str(dims)}, TARGETS_REPLAY)
+        u.cover(f"targets.cover[{n}]", ps, lambda p: p.kind == "return")
+
+
+# ---- the fitness loop: sum over (processor, target) pairs --------------------------------------------------------
+from . import fitmodel as FM  # noqa: E402
+
+FIT_REPLAY = lambda w: {"code": """
+import numpy as np, tempfile, pathlib
+import verif_probes as VP
+from pyxel.calibration.fitting_datatree import ModelFittingDataTree
+from pyxel.calibration.util import FitRange2D, FitRange3D
+from pyxel.calibration.fitness import sum_of_abs_residuals
+from pyxel.observation import ParameterValues
+from pyxel.pipelines import DetectionPipeline, ModelFunction, Processor
+from pyxel.exposure import Readout
+d = pathlib.Path(tempfile.mkdtemp())
+det = VP.detector()
+rows, cols = det.geometry.row, det.geometry.col
+gains, weights = (1.0, 2.0, 3.0), [1.0, 10.0, 100.0]
+targets = [np.full((rows, cols), v) for v in (1.0, 5.0, 11.0)]
+for i, t in enumerate(targets): np.save(d / f't{i}.npy', t)
+pipe = DetectionPipeline(photon_collection=[ModelFunction(func='verif_probes.set_image', name='img', arguments={'level': 0.0, 'gain': 1.0})])
+proc = Processor(detector=det, pipeline=pipe)
+variables = [ParameterValues(key='pipeline.photon_collection.img.arguments.level', values='_', boundaries=(0.0, 100.0))]
+inputs = [ParameterValues(key='pipeline.photon_collection.img.arguments.gain', values=list(gains))]
+VIOLATED, DETAIL = False, ''
+for wmode in ('none', 'numbers'):
+    mf = ModelFittingDataTree(processor=proc, variables=variables, readout=Readout(), simulation_output='image', generations=1, population_size=4,
+                              fitness_func=sum_of_abs_residuals, file_path=None, target_fit_range=FitRange2D(row=slice(0, rows), col=slice(0, cols)),
+                              out_fit_range=FitRange3D(time=slice(None), row=slice(0, rows), col=slice(0, cols)),
+                              target_filenames=[d / f't{i}.npy' for i in range(3)], input_arguments=inputs, weights=weights if wmode == 'numbers' else None)
+    for level in (2.0, 7.0):
+        got = mf.fitness(np.array([level]))[0]
+        ws = weights if wmode == 'numbers' else [1.0] * 3
+        want = sum(abs(w * (t - round(level * g))).sum() for w, t, g in zip(ws, targets, gains))
+        if not np.isclose(got, want):
+            VIOLATED, DETAIL = True, f'weights={wmode}: fitness(level={level}) = {got!r}; declared figure of merit over the 3 (target, input, weight) triples = {want!r}'
+""", "expect": "fitness = sum over all (processor, target) pairs of the fitness function on that pair's data and weight"}
+
+
+@unit("C11", "fitness.sum")
+def fitness_sum(u: Unit):
+    """ModelFittingDataTree.fitness under a loop contract: the returned value is the sum over k < min(#processors, #targets)
+    of fitness_func-term(k), where term k uses processor k (updated with the candidate's parameters), ITS simulated data,
+    target k and weight k — no pair skipped, repeated or crossed."""
+    rec = {}
+    cfg, fi = FM.mk_cfg(u, rec)
+    base_after = None
+
+    def after(ex, fr, k):
+        st = ex.st
+        calc = rec.get("calc", [])
+        upd = rec.get("upd", [])
+        runs = rec.get("runs", [])
+        sims = rec.get("sim", [])
+        st.oblige("fitness.loop.one_term_per_pair", bool(len(calc) == 1 and len(upd) == 1 and len(runs) == 1 and len(sims) == 1), {"replay": FIT_REPLAY}, assume_after=False)
+        if not (len(calc) == 1 and len(upd) == 1 and len(runs) == 1 and len(sims) == 1):
+            return
+        s, t, wv = calc[0]
+        p, proc = upd[0]
+        st.oblige("fitness.loop.candidate_parameters_applied", bool(isinstance(p, VOpaque) and p.t is not None and z3.eq(p.t, FM.PARAM)), {"replay": FIT_REPLAY}, assume_after=False)
+        st.oblige("fitness.loop.pair[processor k]", (proc.t == FM.PROC(k)) if isinstance(proc, VSym) else False, {"replay": FIT_REPLAY}, assume_after=False)
+        st.oblige("fitness.loop.pair[target k]", (t.t == FM.TGT(k)) if isinstance(t, VOpaque) and t.t is not None else False, {"replay": FIT_REPLAY}, assume_after=False)
+        rp = runs[0].get("processor")
+        st.oblige("fitness.loop.simulates_the_updated_copy", (rp.t == FM.UPD(FM.PARAM, FM.PROC(k))) if isinstance(rp, VSym) else False, {"replay": FIT_REPLAY}, assume_after=False)
+        st.oblige("fitness.loop.own_simulated_data", (s.t == FM.SIM(FM.RUN(FM.UPD(FM.PARAM, FM.PROC(k))), FM.flag(k))) if isinstance(s, VOpaque) and s.t is not None else False,
+                  {"replay": FIT_REPLAY}, assume_after=False)
+        st.oblige("fitness.loop.own_weight", FM.weight_token(ex, wv) == FM.weight(k), {"replay": FIT_REPLAY, "witness": {"weight_mode": FM.WMODE}}, assume_after=False)
+        rec.clear()
+    cfg.loops[(fi.qualname, 0)].after_body = after
+    base_h = cfg.loops[(fi.qualname, 0)].havoc
+
+    def hav(ex, fr, k):
+        base_h(ex, fr, k)
+        rec.clear()
+    cfg.loops[(fi.qualname, 0)].havoc = hav
+    u.internal_replay, u.internal_witness = FIT_REPLAY, {"weight_mode": FM.WMODE}
+    ps = u.paths(fi, lambda ex: FM.setup(u, ex), cfg, label="ModelFittingDataTree.fitness")
+    n = z3.If(FM.NP < FM.NT, FM.NP, FM.NT)
+    for p in ps:
+        if p.kind != "return":
+            u.oblige(p, "fitness.no_raise_without_model_failure", False, {"exc": p.exc_name()}, FIT_REPLAY)
+            continue
+        items = p.ex.try_list(p.value)
+        ok = items is not None and len(items) == 1 and isinstance(items[0], VFloat)
+        u.oblige(p, "fitness.sum_over_pairs", z3.And(zb(ok), to_real(items[0]) == FM.SUM(n)) if ok else False, {"n_processors": FM.NP, "n_targets": FM.NT}, FIT_REPLAY)
+    u.cover("fitness.cover", ps, lambda p: p.kind == "return")
+    u.assume_note("'all target files': the loop pairs by zip(strict=False), i.e. min(#processors, #targets) pairs; equal counts (one input-argument value per target file) is "
+                  "the declared configuration and is NOT enforced by the code")
+
+
+@unit("C11", "sim_data")
+def sim_data(u: Unit):
+    """_get_simulated_data: the declared output container of THIS run's tree ('/bucket/<name>' in the hierarchical layout),
+    restricted by the declared result fit range (isel with exactly its time / y / x slices) when one is declared."""
+    from pyvc import lib as L
+    fi = u.fn(f"{FM.FD}::ModelFittingDataTree._get_simulated_data")
+    mci = u.cls(f"{FM.FD}::ModelFittingDataTree")
+    for out in ("image", "signal", "pixel"):
+        for has_range in (True, False):
+            cfg = Cfg("real")
+            boundary.install(cfg)
+            cfg.lib_overrides["builtins.isinstance"] = lambda ex, f, args, kwargs, fr: VBool(True) if isinstance(args[0], VOpaque) and args[0].kind == "xr" else L.isinstance_(ex, args[0], args[1])
+            hold = {}
+
+            def setup(ex, out=out, has_range=has_range):
+                rng = mk_range(ex, u, 3, "o") if has_range else NONE
+                ex.hold = {"rng": rng, "tree": VOpaque("xr", ex.st.fresh_int("xr"), {"label": "data_tree"})}
+                me = ex.st.alloc(HObj(mci, {"sim_output": VStr(out), "sim_fit_range": rng, "targ_fit_range": mk_range(ex, u, 3, "t")}))
+                return [me], {"data": ex.hold["tree"], "with_inherited_coords": VBool(z3.Bool("wic"))}
+            ps = u.paths(fi, setup, cfg, label=f"_get_simulated_data[{out},range={has_range}]")
+            n_ret = 0
+            for p in ps:
+                if p.kind != "return":
+                    continue          # missing y/x dimension: ValueError (boundary decides)
+                n_ret += 1
+                v = p.value
+                hold = p.ex.hold
+                sel = None
+                if has_range:
+                    fn_ = v.info.get("fn") if isinstance(v, VOpaque) else None
+                    ok_isel = fn_ is not None and str(fn_.info.get("attr")) == "isel" and set(v.info.get("kwargs", {})) == {"indexers"} and not v.info.get("args")
+                    d = p.ex.try_dict(v.info["kwargs"]["indexers"]) if ok_isel else None
+                    want = p.st.cell(hold["rng"]).fields
+                    ok_dict = d is not None and {k.v: x for k, x in d} .keys() == {"time", "y", "x"} and all(
+                        {"time": want["time"], "y": want["row"], "x": want["col"]}[k.v] is x for k, x in d)
+                    u.oblige(p, f"sim_data.restricted_to_result_range[{out}]", bool(ok_isel and ok_dict), {}, FIT_REPLAY)
+                    sel = fn_.info.get("of") if ok_isel else None
+                else:
+                    sel = v
+                ok_key = isinstance(sel, VOpaque) and sel.info.get("of") is hold["tree"] and isinstance(sel.info.get("key"), VStr)
+                key = sel.info["key"].v if ok_key else None
+                wic = p.ex.truth(VBool(z3.Bool("wic")))
+                goal = z3.If(z3.Bool("wic"), z_str(key) == f"/bucket/{out}", z_str(key) == out) if ok_key else False
+                u.oblige(p, f"sim_data.declared_container[{out},range={has_range}]", goal, {"wic": z3.Bool("wic")}, FIT_REPLAY)
+            u.cover(f"sim_data.cover[{out},{has_range}]", [1] * n_ret, lambda _: True)
+
+
+SIM_ARR = z3.Function("values_of", z3.IntSort(), z3.IntSort(), z3.IntSort(), z3.RealSort())
+
+
+@unit("C11", "calc")
+def calc(u: Unit):
+    """_calculate_fitness (image / signal / pixel outputs): the configured fitness function receives the values of the given
+    simulated data, the given target and the given weighting (all ones when none is declared), as float arrays."""
+    from pyvc import arrays as A
+    fi = u.fn(f"{FM.FD}::ModelFittingDataTree._calculate_fitness")
+    mci = u.cls(f"{FM.FD}::ModelFittingDataTree")
+    for has_w in (True, False):
+        cfg = Cfg("real")
+        boundary.install(cfg)
+
+        def arr_of(ex, v, dtype, fr):
+            if isinstance(v, VOpaque) and v.kind == "xr" and v.t is not None:
+                return A.new_array(ex, (R, Cc), dtype or VDtype("float64"), lambda ix, t=v.t: VFloat(SIM_ARR(t, z_int(ix[0]), z_int(ix[1]))))
+            raise Unsupported("np.array of an unknown object")
+        cfg.lib_overrides[("np.array_of",)] = arr_of
+        hold = {}
+
+        def setup(ex, has_w=has_w):
+            ex.st.assume(z3.And(R > 0, Cc > 0))
+            ex.hold = {"ff": VOpaque("xr", ex.st.fresh_int("xr"), {"label": "fitness_func"})}
+            me = ex.st.alloc(HObj(mci, {"sim_output": VStr("image"), "fitness_func": ex.hold["ff"]}))
+            wref, wf = frame(ex, "weights_given") if has_w else (NONE, None)
+            ex.hold["wf"] = wf
+            return [me], {"simulated_data": VOpaque("xr", z3.Int("sim_tok"), {"label": "sim"}), "target_data": VOpaque("xr", z3.Int("tgt_tok"), {"label": "tgt"}), "weighting": wref}
+        ps = u.paths(fi, setup, cfg, label=f"_calculate_fitness[weights={has_w}]")
+        gy, gx = z3.Int("gy"), z3.Int("gx")
+        for p in ps:
+            if p.kind != "return":
+                u.oblige(p, f"calc.no_raise[{has_w}]", False, {"exc": p.exc_name()}, FIT_REPLAY)
+                continue
+            hold = p.ex.hold
+            calls = [e for e in p.st.events if e[0] == "xr_call" and e[-1] is hold["ff"]]
+            ok = len(calls) == 1 and not calls[0][2] and set(calls[0][3]) == {"simulated", "target", "weighting"} and all(p.ex.is_arr(x) for x in calls[0][3].values())
+            if not ok:
+                u.oblige(p, f"calc.declared_function_on_declared_data[{has_w}]", False, {}, FIT_REPLAY)
+                continue
+            kw = {k: p.st.cell(x) for k, x in calls[0][3].items()}
+            inb = z3.And(gy >= 0, gy < R, gx >= 0, gx < Cc)
+            wv = hold["wf"](gy, gx) if has_w else z3.RealVal(1)
+            goal = z3.And(to_real(kw["simulated"].elem((gy, gx))) == SIM_ARR(z3.Int("sim_tok"), gy, gx), to_real(kw["target"].elem((gy, gx))) == SIM_ARR(z3.Int("tgt_tok"), gy, gx),
+                          to_real(kw["weighting"].elem((gy, gx))) == wv)
+            u.oblige(p, f"calc.declared_function_on_declared_data[{has_w}]", z3.Implies(inb, goal), {}, FIT_REPLAY)
+            u.oblige(p, f"calc.returns_its_value[{has_w}]", bool(isinstance(p.value, VOpaque) and p.value.info.get("fn") is hold["ff"]), {}, FIT_REPLAY)
+        u.cover(f"calc.cover[{has_w}]", ps, lambda p: p.kind == "return")
+
+
+@unit("C11", "init")
+def init_unit(u: Unit):
+    """ModelFittingDataTree.__init__ (single-readout targets): targets come from the DECLARED target files, are restricted
+    by the declared target fit range, the result fit range is the declared one, the ranges are checked (so unequal / out of
+    bounds ranges are rejected here, before any optimisation), the per-target processors come from build_processors on the
+    declared input arguments, and the declared weights reach _configure_weights.
+    (Multi-readout targets: at this snapshot the constructor raises ValueError for them — dimension 'readout_time' vs the
+    range's 'time' — so nothing is computed; noted in DESIGN.md, outside this obligation.)"""
+    fi = u.fn(f"{FM.FD}::ModelFittingDataTree.__init__")
+    u.fn(f"{FM.FD}::ModelFittingDataTree._configure_weights")
+    mci = u.cls(f"{FM.FD}::ModelFittingDataTree")
+    rci = u.cls("pyxel/exposure/readout.py::Readout")
+    for with_inputs in (True, False):
+        for wkind in ("none", "numbers", "files"):
+            cfg = Cfg("real")
+            boundary.install(cfg)
+            M = f"{FM.FD}::ModelFittingDataTree."
+
+            def mk(name, label):
+                def apply(ex, args, kwargs, fr, name=name, label=label):
+                    ex.hold.setdefault("calls", []).append((name, list(args), dict(kwargs)))
+                    return VOpaque("xr", ex.st.fresh_int("xr"), {"label": label, "args": list(args), "kwargs": dict(kwargs)})
+                return apply
+            cfg.contracts[M + "_set_bound"] = Contract(M + "_set_bound", lambda ex, args, kwargs, fr: VTuple([VOpaque("xr", ex.st.fresh_int("lb"), {"label": "lower"}), VOpaque("xr", ex.st.fresh_int("ub"), {"label": "upper"})]), "C10")
+            cfg.contracts[f"{FM.FD}::build_processors"] = Contract(f"{FM.FD}::build_processors", mk("build_processors", "processors"), "C06/C11: one processor per input-argument value")
+            cfg.contracts[f"{UTIL}::create_processor_data_array"] = Contract(f"{UTIL}::create_processor_data_array", mk("create_processor_data_array", "targets"), "C11.targets")
+            cfg.contracts[f"{UTIL}::check_fit_ranges"] = Contract(f"{UTIL}::check_fit_ranges", lambda ex, args, kwargs, fr: (ex.hold.setdefault("calls", []).append(("check_fit_ranges", list(args), dict(kwargs))), NONE)[1], "C11.ranges")
+            cfg.lib_overrides[("deepcopy", "xr")] = lambda ex, v, dc, fr: VOpaque("xr", ex.st.fresh_int("xr"), dict(v.info, copied_from=v))
+
+            def setup(ex, with_inputs=with_inputs, wkind=wkind):
+                o = lambda l, **kw: VOpaque("xr", ex.st.fresh_int("xr"), dict(label=l, **kw))
+                h = ex.hold = {"calls": []}
+                h["processor"], h["files"], h["fitfn"] = o("processor", truthy=True), o("target_filenames", truthy=True), o("fitness_func")
+                h["trange"], h["orange"] = mk_range(ex, u, 2, "t"), mk_range(ex, u, 3, "o")
+                h["inputs"] = o("input_arguments", truthy=True) if with_inputs else NONE
+                h["weights"] = ex.st.alloc(HList([VFloat(z3.Real("w0")), VFloat(z3.Real("w1"))])) if wkind == "numbers" else NONE
+                h["wfiles"] = o("weights_from_file", truthy=True) if wkind == "files" else NONE
+                readout = ex.st.alloc(HObj(rci, {"_time_domain_simulation": VBool(False)}))
+                me = ex.st.alloc(HObj(mci, {}))
+                h["me"] = me
+                return [me], {"processor": h["processor"], "variables": ex.st.alloc(HList([])), "readout": readout, "simulation_output": VStr("image"), "generations": VInt(3),
+                              "population_size": VInt(10), "fitness_func": h["fitfn"], "file_path": NONE, "target_fit_range": h["trange"], "out_fit_range": h["orange"],
+                              "target_filenames": h["files"], "input_arguments": h["inputs"], "weights": h["weights"], "weights_from_file": h["wfiles"],
+                              "pipeline_seed": VInt(z3.Int("seed")), "with_inherited_coords": VBool(z3.Bool("wic"))}
+            tag = f"{'inputs' if with_inputs else 'no_inputs'},{wkind}"
+            ps = u.paths(fi, setup, cfg, label=f"ModelFittingDataTree.__init__[{tag}]")
+            for p in ps:
+                if p.kind != "return":
+                    u.oblige(p, f"init.no_raise[{tag}]", False, {"exc": p.exc_name()}, FIT_REPLAY)
+                    continue
+                h, st = p.ex.hold, p.st
+                me = st.cell(h["me"]).fields
+                calls = h["calls"]
+                cp = [c for c in calls if c[0] == "create_processor_data_array"]
+                tcalls = [c for c in cp if (c[2].get("filenames") if "filenames" in c[2] else (c[1][0] if c[1] else None)) is h["files"]]
+                u.oblige(p, f"init.targets_from_declared_files[{tag}]", bool(len(tcalls) == 1), {}, FIT_REPLAY)
+                atd = me.get("all_target_data")
+                ok = isinstance(atd, VOpaque) and atd.info.get("fn") is not None and str(atd.info["fn"].info.get("attr")) == "isel" and isinstance(atd.info["fn"].info.get("of"), VOpaque) \
+                    and atd.info["fn"].info["of"].info.get("label") == "targets" and set(atd.info.get("kwargs", {})) == {"indexers"}
+                if ok:
+                    d = p.ex.try_dict(atd.info["kwargs"]["indexers"])
+                    want = st.cell(h["trange"]).fields
+                    ok = d is not None and {k.v for k, _ in d} == {"y", "x"} and all({"y": want["row"], "x": want["col"]}[k.v] is x for k, x in d)
+                u.oblige(p, f"init.targets_restricted_to_target_range[{tag}]", bool(ok), {}, FIT_REPLAY)
+                u.oblige(p, f"init.declared_ranges_kept[{tag}]", bool(me.get("sim_fit_range") is h["orange"] and me.get("targ_fit_range") is h["trange"]), {}, FIT_REPLAY)
+                ck = [c for c in calls if c[0] == "check_fit_ranges"]
+                u.oblige(p, f"init.ranges_checked[{tag}]", bool(len(ck) == 1 and ck[0][2].get("target_fit_range") is h["trange"] and ck[0][2].get("out_fit_range") is h["orange"]), {}, FIT_REPLAY)
+                ppl = me.get("param_processor_list")
+                if with_inputs:
+                    bp = [c for c in calls if c[0] == "build_processors"]
+                    okp = len(bp) == 1 and bp[0][2].get("processor") is h["processor"] and bp[0][2].get("arguments") is h["inputs"] and isinstance(ppl, VOpaque) and ppl.info.get("label") == "processors"
+                else:
+                    items = p.ex.try_list(ppl) if isinstance(ppl, VRef) else None
+                    okp = items is not None and len(items) == 1 and isinstance(items[0], VOpaque) and items[0].info.get("copied_from") is h["processor"]
+                u.oblige(p, f"init.processors_from_declared_inputs[{tag}]", bool(okp), {}, FIT_REPLAY)
+                if wkind == "numbers":
+                    w = me.get("weighting")
+                    okw = isinstance(w, VRef) and isinstance(st.cell(w), HArr) and st.cell(w).shape[0] == 2 and \
+                        all(z3.eq(z3.simplify(to_real(st.cell(w).elem((z3.IntVal(i),)))), z3.Real(f"w{i}")) for i in range(2))
+                    u.oblige(p, f"init.declared_weights_kept[{tag}]", bool(okw), {}, FIT_REPLAY)
+                elif wkind == "files":
+                    w = me.get("weighting_from_file")
+                    okw = isinstance(w, VOpaque) and w.info.get("fn") is not None and str(w.info["fn"].info.get("attr")) == "isel" and \
+                        any(c[2].get("filenames") is h["wfiles"] and w.info["fn"].info.get("of") is not None for c in cp)
+                    u.oblige(p, f"init.declared_weights_kept[{tag}]", bool(okw), {}, FIT_REPLAY)
+                else:
+                    u.oblige(p, f"init.declared_weights_kept[{tag}]", bool(isinstance(me.get("weighting"), VNone) and isinstance(me.get("weighting_from_file"), VNone)), {}, FIT_REPLAY)
+            u.cover(f"init.cover[{tag}]", ps, lambda p: p.kind == "return")
+
+
+@unit("C11", "build_processors")
+def build_processors_unit(u: Unit):
+    """build_processors: processor i is a deep copy of the caller's processor on which every input argument is set to ITS
+    i-th declared value (each target paired with its own input arguments); lists of 1..3 values, 1..2 arguments."""
+    fi = u.fn(f"{FM.FD}::build_processors")
+    pvc = u.cls("pyxel/observation/parameter_values.py::ParameterValues")
+    for nargs in (1, 2):
+        for nvals in (1, 2, 3):
+            cfg = Cfg("real")
+            boundary.install(cfg)
+            cfg.lib_overrides[("deepcopy", "xr")] = lambda ex, v, dc, fr: VOpaque("xr", ex.st.fresh_int("xr"), dict(v.info, copied_from=v, label="copy"))
+
+            def setup(ex, nargs=nargs, nvals=nvals):
+                h = ex.hold = {"processor": VOpaque("xr", ex.st.fresh_int("xr"), {"label": "processor", "truthy": True})}
+                steps = []
+                for a in range(nargs):
+                    vals = [VFloat(z3.Real(f"in{a}_{i}")) for i in range(nvals)]
+                    steps.append(ex.st.alloc(HObj(pvc, {"_key": VStr(z3.String(f"input_key{a}")), "_values": ex.st.alloc(HList(vals)), "_enabled": VBool(True), "_current": NONE,
+                                                        "_logarithmic": VBool(False), "_boundaries": NONE, "_type": VStr("float")})))
+                return [], {"processor": h["processor"], "arguments": ex.st.alloc(HList(steps))}
+            ps = u.paths(fi, setup, cfg, label=f"build_processors[{nargs}x{nvals}]")
+            for p in ps:
+                if p.kind != "return":
+                    u.oblige(p, f"build_processors.no_raise[{nargs}x{nvals}]", False, {"exc": p.exc_name()}, FIT_REPLAY)
+                    continue
+                out = p.ex.try_list(p.value)
+                ok = out is not None and len(out) == nvals and all(isinstance(x, VOpaque) and x.info.get("copied_from") is p.ex.hold["processor"] for x in out) \
+                    and len({id(x) for x in out}) == nvals
+                u.oblige(p, f"build_processors.one_copy_per_value[{nargs}x{nvals}]", bool(ok), {}, FIT_REPLAY)
+                if not ok:
+                    continue
+                good = True
+                for i, proc in enumerate(out):
+                    sets = [e for e in p.st.events if e[0] == "xr_call" and str(e[1]).endswith(".set") and e[-1].info.get("of") is proc]
+                    got = {}
+                    for e in sets:
+                        k, v = e[3].get("key"), e[3].get("value")
+                        if isinstance(k, VStr) and isinstance(v, VFloat):
+                            got[str(k.v)] = v.v
+                    want = {f"input_key{a}": z3.Real(f"in{a}_{i}") for a in range(nargs)}
+                    good = good and len(sets) == nargs and set(got) == set(want) and all(z3.eq(got[k], want[k]) for k in want)
+                u.oblige(p, f"build_processors.own_input_arguments[{nargs}x{nvals}]", bool(good), {}, FIT_REPLAY)
+            u.cover(f"build_processors.cover[{nargs}x{nvals}]", ps, lambda p: p.kind == "return")
